@@ -24,6 +24,8 @@ ResultFile == IF "CAT_RESULT" \in DOMAIN IOEnv THEN IOEnv.CAT_RESULT ELSE "resul
 TraceLog == ndJsonDeserialize(TraceFile)
 
 ImplOn == ~("CAT_IMPL" \in DOMAIN IOEnv /\ IOEnv.CAT_IMPL = "0")
+\* debugging aid: CAT_DEBUG_AT=<record number> prints the monitor before that record is consumed
+DebugAt == IF "CAT_DEBUG_AT" \in DOMAIN IOEnv THEN IOEnv.CAT_DEBUG_AT ELSE ""
 
 VARIABLES l, S, mem, cfg, skip, res, mon, mres
 
@@ -137,6 +139,8 @@ MonNext(rec) ==
 Next ==
   /\ l <= Len(TraceLog)
   /\ l' = l + 1
+  /\ (DebugAt = ToString(l) => PrintT(<<"MON", [q |-> mon.q, eph |-> mon.eph, ec |-> mon.ec, et |-> mon.et, eclosing |-> mon.eclosing, emaybe |-> mon.emaybe, eunc |-> mon.eunc,
+                                                  lost |-> mon.lost, cph |-> mon.cph, cc |-> mon.cc, expE |-> Len(mon.expE), expC |-> Len(mon.expC), n |-> mon.n]>>))
   /\ MonNext(TraceLog[l])
   /\ LET rec == TraceLog[l] IN
      IF rec.e = "cfg" THEN StepCfg(rec)
